@@ -75,6 +75,10 @@ structure Inv (c : Cfg) : Prop where
   ig1 : c.s1.ignoreError = false
   to2 : c.s2.timeout = false
   ig2 : c.s2.ignoreError = false
+  /-- `iterator_fn` is a generator (it ends with its own return value).  For a pass-through `iterator_fn` (`fwd`) the
+  ghost classification `Queue.stopped` (= `_stop_enqueue`'s arguments are non-empty) is wrong when the input queue
+  ends with `StopIteration()` after an upstream stop, so `Queue.Live`'s counting invariant does not transfer. -/
+  gen : c.fwd = false
 
 structure Good (c : Cfg) : Prop where
   inv : Inv c
@@ -98,7 +102,7 @@ theorem good_mk {c : Cfg} {tid : Tid} {t t' : Th} {s1' s2' : Shared} {il : Optio
     Good { c with s1 := s1', s2 := s2', ths := c.ths.set tid t', ilock := il, cache := ca, nsub := ns } := by
   have hi := hg.inv
   have htid : tid < c.ths.length := (List.getElem?_eq_some_iff.mp ht).1
-  refine ⟨⟨?_, ?_, ?_, ?_, hc1.1, hc1.2, hc2.1, hc2.2⟩, ?_, ?_⟩
+  refine ⟨⟨?_, ?_, ?_, ?_, hc1.1, hc1.2, hc2.1, hc2.2, hi.gen⟩, ?_, ?_⟩
   · intro u hu
     rcases List.mem_or_eq_of_mem_set hu with hu | rfl
     · exact hi.ti u hu
@@ -155,9 +159,9 @@ theorem q2cfg_init (cap1 cap2 bm1 bm2 mw : Nat) (ns : Option Nat) (fwd : Bool) (
         (.batchLoop bm2 false :: ((inputs.map fun _ => Prog.stopper none) ++ gens.map fun r => Prog.producer [] r)) := by
   simp [q2cfg, init, Queue.init, mkCons, mkL1, mkL2, v2, inertT, Function.comp_def]
 
-theorem good_init (cap1 cap2 bm1 bm2 mw : Nat) (ns : Option Nat) (fwd : Bool) (inputs : List InSpec) (gens : List Nat) :
-    Good (init cap1 cap2 bm1 bm2 mw ns fwd inputs gens) := by
-  refine ⟨⟨?_, ?_, ?_, ?_, rfl, rfl, rfl, rfl⟩, ?_, ?_⟩
+theorem good_init (cap1 cap2 bm1 bm2 mw : Nat) (ns : Option Nat) (inputs : List InSpec) (gens : List Nat) :
+    Good (init cap1 cap2 bm1 bm2 mw ns false inputs gens) := by
+  refine ⟨⟨?_, ?_, ?_, ?_, rfl, rfl, rfl, rfl, rfl⟩, ?_, ?_⟩
   · intro t ht
     simp only [init, List.mem_cons, List.mem_append, List.mem_map] at ht
     rcases ht with rfl | ⟨i, _, rfl⟩ | ⟨g, _, rfl⟩
